@@ -117,9 +117,12 @@ pub fn check_serializable(spec: &SetSpec, t: &SVal) -> Verdict {
     }
 }
 
+const UNSORTED: [&str; 9] = ["m", "c", "x", "a", "Q", "b", "z", "K", "d"];
+
 fn fixed_spec(kinds: &[usize]) -> SetSpec {
     SetSpec {
-        rules: kinds.iter().enumerate().map(|(i, k)| (format!("rule{i}"), rule_of_kind(*k, i as i128 + 1))).collect(),
+        // names deliberately not in lexicographic order: outcome order must be the order added, not a sorted one
+        rules: kinds.iter().enumerate().map(|(i, k)| (format!("{}-rule", UNSORTED[i % UNSORTED.len()]), rule_of_kind(*k, i as i128 + 1))).collect(),
         fns: standard_fns(),
         symbols: standard_symbols(),
         suspend: 0,
@@ -146,7 +149,7 @@ fn random_case(bytes: &[u8]) -> SetCase {
             }
         };
         // duplicate names are refused by the builder: names are distinct by construction
-        rules.push((format!("r{i}"), e));
+        rules.push((format!("{}{i}", UNSORTED[(i * 3 + n) % UNSORTED.len()]), e));
     }
     let mut fns_all = standard_fns();
     fns_all.extend(fns);
